@@ -492,13 +492,13 @@ def run(ctx):
     import itertools
     nexh = 0
     for n in range(1, L + 1):
-        alpha = EXH_ALPHA if n <= 3 else EXH_ALPHA[:14]
+        alpha = EXH_ALPHA if n <= 2 or (n == 3 and not ctx.quick) else (EXH_ALPHA[:16] if n == 3 else EXH_ALPHA[:14])
         for seq in itertools.product(alpha, repeat=n):
             for mode in ("X", "Y"):
                 for style in (1, 2):
                     add(mode, list(seq), style)
                     nexh += 1
-    nseed = ctx.n(6000, 300000)
+    nseed = ctx.n(5000, 300000)
     for _ in range(nseed):
         mode = "X" if ctx.rng.below(2) else "Y"
         toks = gen_expr(ctx.rng, 3) if mode == "X" else gen_stmt(ctx.rng)
@@ -552,7 +552,7 @@ def run(ctx):
                     ctx.fail("expr:" + s.replace(" ", "_"), "ParseExpr(%r): go/parser gives %s, the XGo parser %s" % (s, g, x), {"src": s, "go": g, "xgo": x})
     ctx.cover(evaluations=2 * len(icases), distinct_nontrivial=len(set(c.split(" ", 2)[2] for c in mcases if len(c.split()) >= 5)),
               samples=[{"mode": srcs[i][0], "src": srcs[i][1], "model_case": mcases[i]} for i in (nexh + 1, nexh + 7, 777) if i < len(srcs)],
-              rule="model correspondence: every token sequence of length <= %d over %s as expression and as statement, in minimal-blank and all-blank "
+              rule="model correspondence: every token sequence of length <= %d over %s (quick: length 3 over the first 16 tokens; length 4 over the first 14) as expression and as statement, in minimal-blank and all-blank "
                    "spacing (%d cases) + %d seeded grammar-generated / mutated sequences with random spacing; each case run under both dialects "
                    "against go/parser and the XGo parser; cases where the model says UNSUP or the real tree leaves the core are skipped (%d dialect-cases); "
                    "non-trivial = distinct token sequence with >= 3 tokens" % (L, EXH_ALPHA, nexh, nseed, skipped),
